@@ -452,7 +452,7 @@ def gen_c09(seed, shipped, tier="quick"):
     nworlds = rng.choice([2, 3, 3, 4, 5] if thorough else [2, 3, 3, 4])
     worlds = []
     h0 = 0 if thorough and rng.random() < 0.5 else rng.choice([0, 1, rng.randrange(1 << 32)])
-    pristine_ops = [["new", "s0"]] + [["scan", "s0", i, d] for i, d in keys] + [["cli", m, "stdin", i] for m, i in cli_keys]
+    pristine_ops = [["new", "s0"]] + [["scan", "s0", i, d] for i, d in keys] + [["scan_pre", "s0", i, d] for i, d in keys[:2]] + [["cli", m, "stdin", i] for m, i in cli_keys]
     worlds.append({"hashseed": h0, "enum_seed": 0, "io_seed": 0, "env_seed": 0, "io": {"chunk": "full"}, "env": {"LC_ALL": None, "opt": ""}, "ops": pristine_ops})
     if variants:
         # a second pristine world: the variant configuration from the start
@@ -475,8 +475,10 @@ def gen_c09(seed, shipped, tier="quick"):
             elif r < 0.40:
                 ops.append(["scan_node", s, i, d])
                 nres += 1
-            elif r < 0.44:
+            elif r < 0.43:
                 ops.append(["scan_fresh", s, i, d])
+            elif r < 0.46:
+                ops.append(["scan_pre", s, i, d])
             elif r < 0.62:
                 nt = rng.choice([2, 2, 3, 4, 5, 6] if thorough else [2, 2, 3, 4])
                 jobs = [list(rng.choice(keys)) for _ in range(nt)]
